@@ -635,6 +635,9 @@ func codecRun(prop string) func(c *core.Ctx) {
 			c01Flush(c)
 			c01Extra(c, spec)
 		}
+		if prop == "C10" {
+			c10Extra(c, spec)
+		}
 		if prop == "C04" && c.Shard == 0 {
 			c04Static(c, spec)
 		}
